@@ -69,7 +69,7 @@ class C19(Prop):
             if i % 4 == 0:
                 wrong = rng.choice([k for k in KINDS if k != kind])
             yield dict(entry="preflib_%s_to_profile" % {"cat": "categorical"}.get(wrong or kind, wrong or kind), family=kind + ("_wrongtype" if wrong else ""),
-                       kind=kind, m=m, votes=votes, ncat=ncat, tb=tb, call=(wrong or kind), seed=i)
+                       kind=kind, m=m, votes=votes, ncat=ncat, tb=tb, call=(wrong or kind), seed=i, twice=(wrong is None and i % 3 == 1))
 
     def run(self, case):
         from preflibtools.instances import OrdinalInstance, CategoricalInstance
@@ -91,15 +91,23 @@ class C19(Prop):
                 lib = [[[[a] for a in order], mult] for order, mult in inst.flatten_strict()]
         else:
             lib = [[[list(c) for c in order], mult] for order, mult in inst.vote_map().items()]
+        def conv():
+            c = case["call"]
+            if c == "soc": return PL.preflib_soc_to_profile(inst)
+            if c == "soi": return PL.preflib_soi_to_profile(inst)
+            if c == "toc": return PL.preflib_toc_to_profile(inst, case["tb"])
+            if c == "toi": return PL.preflib_toi_to_profile(inst, case["tb"])
+            return PL.preflib_categorical_to_profile(inst, case["tb"])
         def go():
             np.random.seed(case["seed"])
             with contextlib.redirect_stdout(io.StringIO()):
-                c = case["call"]
-                if c == "soc": o = PL.preflib_soc_to_profile(inst)
-                elif c == "soi": o = PL.preflib_soi_to_profile(inst)
-                elif c == "toc": o = PL.preflib_toc_to_profile(inst, case["tb"])
-                elif c == "toi": o = PL.preflib_toi_to_profile(inst, case["tb"])
-                else: o = PL.preflib_categorical_to_profile(inst, case["tb"])
+                if case.get("twice"):      # history: the same instance object was converted before and the caller edited that result in place
+                    try:
+                        o1 = conv(); o1[...] = case["m"]
+                    except Exception:  # noqa
+                        pass
+                    np.random.seed(case["seed"])
+                o = conv()
             return [[None if x != x else int(x) for x in row] for row in np.asarray(o, dtype=float).tolist()]
         r = supervised(go, 10.0)
         if r[0] != "ok":
